@@ -16,7 +16,8 @@ unsigned long g_consumed;
 unsigned long g_last_varint;
 _Bool g_skip_negative;
 unsigned long nondet_u64(void);
-static void vf_havoc_ghosts(void) { g_consumed = nondet_u64(); g_skip_negative = 0; }
+unsigned long g_written; unsigned long g_remaining, g_stream_off, g_str_src_off; _Bool g_str_in_order;
+static void vf_havoc_ghosts(void) { g_consumed = nondet_u64(); g_skip_negative = 0; g_written = nondet_u64(); g_remaining = nondet_u64(); g_stream_off = nondet_u64(); g_str_src_off = g_stream_off; g_str_in_order = 1; }
 
 _Bool CodedInputStream_ReadVarint64(struct CodedInputStream *self, unsigned long *value)
 __CPROVER_requires(__CPROVER_w_ok(value, sizeof(*value)))
@@ -25,7 +26,8 @@ __CPROVER_ensures(__CPROVER_return_value ? (g_consumed == __CPROVER_old(g_consum
                                          : g_consumed >= __CPROVER_old(g_consumed))
 ;
 _Bool CodedInputStream_Skip(struct CodedInputStream *self, int count)
-__CPROVER_assigns(g_consumed, g_skip_negative)
+__CPROVER_assigns(g_consumed, g_skip_negative, g_remaining, g_stream_off)
+__CPROVER_ensures((count >= 0 && (unsigned long)count <= __CPROVER_old(g_remaining)) ==> (__CPROVER_return_value && g_remaining == __CPROVER_old(g_remaining) - (unsigned long)count && g_stream_off == __CPROVER_old(g_stream_off) + (unsigned long)count))
 __CPROVER_ensures(count < 0 ? (!__CPROVER_return_value && g_skip_negative && g_consumed == __CPROVER_old(g_consumed))
                             : ((g_skip_negative == __CPROVER_old(g_skip_negative)) &&
                                (__CPROVER_return_value ? g_consumed == __CPROVER_old(g_consumed) + (unsigned long)count : g_consumed >= __CPROVER_old(g_consumed))))
@@ -34,7 +36,7 @@ __CPROVER_ensures(count < 0 ? (!__CPROVER_return_value && g_skip_negative && g_c
 /* consume_unknown_field(tag, is): exactly one field of wire type 0/1/2/5 is consumed, 3/4/6/7 are rejected untouched */
 _Bool SerializationHelper_consume_unknown_field(unsigned int tag, struct CodedInputStream *is)
 __CPROVER_requires(g_consumed <= (1UL << 62) && !g_skip_negative)
-__CPROVER_assigns(g_consumed, g_last_varint, g_skip_negative)
+__CPROVER_assigns(g_consumed, g_last_varint, g_skip_negative, g_remaining, g_stream_off)
 __CPROVER_ensures(((tag & 7) == 3 || (tag & 7) == 4 || (tag & 7) == 6 || (tag & 7) == 7) ==> (!__CPROVER_return_value && g_consumed == __CPROVER_old(g_consumed)))
 __CPROVER_ensures(((tag & 7) == 0 && __CPROVER_return_value) ==> g_consumed == __CPROVER_old(g_consumed) + spec_varint_len(g_last_varint))
 __CPROVER_ensures(((tag & 7) == 1 && __CPROVER_return_value) ==> g_consumed == __CPROVER_old(g_consumed) + 8)
@@ -42,5 +44,64 @@ __CPROVER_ensures(((tag & 7) == 5 && __CPROVER_return_value) ==> g_consumed == _
 __CPROVER_ensures(((tag & 7) == 2 && __CPROVER_return_value && g_last_varint < (1UL << 31)) ==> g_consumed == __CPROVER_old(g_consumed) + spec_varint_len(g_last_varint) + g_last_varint)
 /* a length prefix below 2^31 never reaches Skip as a negative count */
 __CPROVER_ensures(((tag & 7) != 2 || g_last_varint < (1UL << 31)) ==> !g_skip_negative)
+;
+
+/* ---- protobuf size / write primitives (trusted library semantics, as spec functions of the value) */
+size_t vf_VarintSize64(unsigned long v) { return spec_varint_len(v); }
+size_t vf_VarintSize32(unsigned int v) { return spec_varint_len(v); }
+size_t vf_VarintSize32SignExtended(int v) { return v < 0 ? 10 : spec_varint_len((unsigned int)v); }
+size_t vf_EnumSize(int v) { return vf_VarintSize32SignExtended(v); }
+size_t vf_Int32Size(int v) { return vf_VarintSize32SignExtended(v); }
+unsigned long g_w_last;
+void CodedOutputStream_WriteVarint64(struct CodedOutputStream *os, unsigned long v) { g_written += spec_varint_len(v); g_w_last = v; }
+
+/* enum traits: the predicted size is the number of bytes serialize writes, for every 64-bit enumerator value, and
+ * deserialize(serialize(v)) gives v back (ReadVarint64 returns what WriteVarint64 wrote: g_last_varint) */
+size_t EnumTraits_calculate_serialized_size(unsigned long *value)
+__CPROVER_requires(__CPROVER_is_fresh(value, sizeof(*value)))
+__CPROVER_assigns()
+__CPROVER_ensures(__CPROVER_return_value == spec_varint_len(*value))
+;
+void EnumTraits_serialize(unsigned long *value, struct CodedOutputStream *os)
+__CPROVER_requires(__CPROVER_is_fresh(value, sizeof(*value)) && g_written < (1UL << 60))
+__CPROVER_assigns(g_written, g_w_last)
+__CPROVER_ensures(g_written == __CPROVER_old(g_written) + spec_varint_len(*value) && g_w_last == *value)
+;
+_Bool EnumTraits_deserialize(struct CodedInputStream *is, unsigned long *value)
+__CPROVER_requires(__CPROVER_is_fresh(value, sizeof(*value)) && g_consumed < (1UL << 60))
+__CPROVER_assigns(*value, g_consumed, g_last_varint)
+__CPROVER_ensures(__CPROVER_return_value ==> (*value == g_last_varint && g_consumed == __CPROVER_old(g_consumed) + spec_varint_len(g_last_varint)))
+;
+/* ---- string traits: deserialize takes every byte up to the current limit, whatever the chunking of the underlying stream */
+unsigned long g_str_len;
+_Bool CodedInputStream_GetDirectBufferPointer(struct CodedInputStream *is, void **data, int *size) {
+  if (g_remaining == 0) return 0;
+  unsigned long k = nondet_u64(); __CPROVER_assume(k >= 1 && k <= g_remaining && k < (1UL << 31));   /* the next chunk of the stream */
+  *data = (void *)(0x100000UL + g_stream_off); *size = (int)k;
+  return 1;
+}
+#undef VF_SKIP_STUB
+void String_clear(struct String *s) { g_str_len = 0; }
+struct String *String_append(struct String *s, char *p, unsigned long n) {
+  if ((unsigned long)p != 0x100000UL + g_str_len + g_str_src_off) g_str_in_order = 0;     /* bytes must arrive in stream order */
+  g_str_len += n; return s;
+}
+struct String *String_assign(struct String *s, char *p, unsigned long n) {
+  if ((unsigned long)p != 0x100000UL + g_str_src_off) g_str_in_order = 0;
+  g_str_len = n; return s;
+}
+unsigned long String_size(struct String *s) { return g_str_len; }
+_Bool StringTraits_deserialize(struct CodedInputStream *is, struct String *value)
+__CPROVER_requires(g_remaining < (1UL << 40) && g_str_in_order && g_stream_off == g_str_src_off && g_stream_off < (1UL << 40) && g_consumed < (1UL << 40) && !g_skip_negative)
+__CPROVER_assigns(g_remaining, g_str_len, g_stream_off, g_str_in_order, g_consumed, g_skip_negative)
+__CPROVER_ensures(__CPROVER_return_value && g_remaining == 0 && g_str_len == __CPROVER_old(g_remaining) && g_str_in_order)
+;
+//@loop StringTraits_deserialize 1
+//@  __CPROVER_assigns(data, size, g_remaining, g_str_len, g_stream_off, g_str_in_order, g_consumed, g_skip_negative)
+//@  __CPROVER_loop_invariant(g_str_in_order && g_str_len + g_remaining == __CPROVER_loop_entry(g_remaining) && g_stream_off == g_str_src_off + g_str_len && g_remaining <= __CPROVER_loop_entry(g_remaining))
+//@end
+size_t StringTraits_calculate_serialized_size(struct String *value)
+__CPROVER_assigns()
+__CPROVER_ensures(__CPROVER_return_value == g_str_len)
 ;
 #endif
